@@ -48,7 +48,7 @@ def lift_pair(case):
     return (mine, other) if h["who"] == 0 else (other, mine)
 
 
-HIST_STATS = {"built": 0, "touched": 0, "fallback": 0, "siblings": 0, "via_negation": 0}
+from ..desc import STATS as HIST_STATS      # one dict: histories here, points-with-a-past in desc.lift
 
 
 def maybe_hist(case, rng, p=0.1, nops=2):
@@ -70,7 +70,7 @@ def make_hist(rng, d, who=0):
         v = (gen.F(1), gen.F(0), gen.F(0))
     return {"who": who, "v": v, "use": rng.choice(("receiver", "receiver", "returned")), "touch": rng.random() < 0.75,
             "sib": rng.choice((None, None, "neg", "copy")), "neg": rng.choice((None, None, None, "before", "after")),
-            "w": tuple(gen.F(rng.randint(-4, 4), 2) for _ in range(3))}
+            "w": tuple(gen.F(rng.randint(-4, 4), 2) for _ in range(3)), "alias": rng.random() < 0.25}
 
 
 def _own_vectors(d):
@@ -186,14 +186,102 @@ def lift_via_history(d, h, r, partner=None):
             sib.move(G.Vector(*[float(c) for c in h.get("w", (1, 0, 0))]))
         except Exception:
             pass
-    return o if h["use"] == "receiver" else ret
+    judged, other = (o, ret) if h["use"] == "receiver" else (ret, o)
+    if h.get("alias") and h.get("reread_ok"):
+        # receiver and returned object of one move: the one that is NOT judged moves on (used first, so that whatever it
+        # caches is cached).  Whether the judged one follows is the library's business (a Plane and the plane returned
+        # by its move share their point); what must hold is that the judged object still answers every query according
+        # to its own public attributes, which are read back here and become the descriptor the oracle works from.
+        w = h.get("w", (1, 0, 0))
+        if w == (0, 0, 0):
+            w = (gen.F(1), gen.F(0), gen.F(-1, 2))
+        try:
+            if h.get("touch"):
+                touch(judged, d, partner)
+            other.move(G.Vector(*[float(c) for c in w]))
+            if h.get("touch") and h.get("sib") is None:
+                touch(other, translate(d, w), None)
+        except Exception:
+            pass
+        HIST_STATS["alias_moves"] += 1
+        nd = reread(judged, d)
+        if nd is None:
+            HIST_STATS["alias_reread_failed"] += 1
+        h["_reread"] = nd
+    return judged
+
+
+def reread(o, d):
+    """exact descriptor of what the object o (built from descriptor d and translated since) now says it is, read from
+    its public primary attributes; None when it is not a translate of d (the invariant hooks deal with deformations)"""
+    from ..desc import translate, exact_of_float
+    k = d[0]
+    try:
+        fd = lower(o)
+        if fd is None or fd[0] != k:
+            return None
+        if k == "P":
+            anchor_now, anchor_was = fd[1], d[1]
+        elif k in ("L", "H", "S", "PL"):
+            anchor_now, anchor_was = fd[1], d[1]
+        elif k == "PG":
+            anchor_now, anchor_was = min(fd[1]), min(d[1])
+        else:
+            anchor_now, anchor_was = min(fd[1]), min(d[1])
+        ex = exact_of_float(("P", tuple(anchor_now)))
+        if ex is None:
+            return None
+        s = K.sub(ex[1], anchor_was)
+        nd = translate(d, s)
+        if k in ("L", "PL"):
+            # any point of the line / plane may serve as support: only the set matters
+            same, _why = same_set(fd, nd)
+            if not same:
+                # the support moved along the object itself or the object is elsewhere: take its own support point
+                nd = (k, ex[1], d[2])
+                same, _why = same_set(fd, nd)
+        else:
+            same, _why = same_set(fd, nd)
+        return nd if same else None
+    except Exception:
+        return None
+
+
+def effective(case):
+    """(a, b, prelifted): the descriptors the oracle must work from and, for alias histories, the operands already
+    built (their descriptors are only known after the history has run).  prelifted is None otherwise."""
+    h = case.get("hist")
+    a, b = case["a"], case["b"]
+    if not h or not h.get("alias"):
+        return a, b, None
+    h["reread_ok"] = True
+    try:
+        x, y = lift_pair(case)
+        nd = h.pop("_reread", "absent")
+    finally:
+        h.pop("reread_ok", None)
+        h.pop("_reread", None)
+    if nd == "absent":
+        return a, b, (x, y)          # history fell back to a plain lift
+    if nd is None:
+        return None, None, (x, y)
+    if h["who"] == 0:
+        a = nd
+    else:
+        b = nd
+    case["_alias_done"] = True
+    K.reset()
+    return a, b, (x, y)
 
 
 def hist_cell(case):
     h = case.get("hist")
     if not h:
         return []
-    return ["pose:history/%s/%s" % ("used-then-moved" if h.get("touch") else "moved", h["use"])]
+    out = ["pose:history/%s/%s" % ("used-then-moved" if h.get("touch") else "moved", h["use"])]
+    if h.get("alias") and case.get("_alias_done"):
+        out.append("pose:history/other-of-(receiver,returned)-moved-on/" + h["use"])
+    return out
 
 
 def run_inter(fn, x, y, exp, tag, mu, keybase):
